@@ -214,7 +214,7 @@ class Shim:
         return self._ck(self.lib.iv_map_dynrf_sin(i, o, self.n, self.n, revpart, V, frf, V0, phasespread, amplspread,
                                                   modampl, modstep, steps, it, clamp), "dynrf_sin")
 
-    def map_dyn_past(self, m, maxn=100000):
+    def map_dyn_past(self, m, maxn=400000):
         out = np.zeros(2 * maxn, np.float32)
         k = self._ck(self.lib.iv_map_dyn_past(m, out, maxn), "dyn_past")
         return out[:2 * min(k, maxn)].reshape(-1, 2).copy(), k
